@@ -39,8 +39,9 @@ def _concretize_shapes():
 
 def _message_formatting():
     import bionumpy.encodings.alphabet_encoding as ae
-    ae.chr = lambda c: "?"
-    APPLIED.append("alphabet_encoding.chr stubbed (exception message text outside the claim)")
+    _chr = chr
+    ae.chr = lambda c: "?" if isinstance(c, SV) else _chr(c)
+    APPLIED.append("alphabet_encoding.chr returns '?' for symbolic bytes (exception message text outside the claim)")
 
 
 def _npsarray():
@@ -51,9 +52,29 @@ def _npsarray():
     APPLIED.append("encoded_array.get_NPSArray is the identity on SymArray")
 
 
+def _text_entry():
+    from . import strs
+    import bionumpy.encoded_array as ea
+    ea.bytes = strs.sym_bytes
+    ea.ord = strs.sym_ord
+    APPLIED.append("encoded_array.bytes/ord accept symbolic str (SymStr) so that the public str / list-of-str entry points run symbolically")
+
+
+def _reset_cached_tables():
+    """lookup tables initialised under real NumPy before install() are rebuilt under symnp on next use"""
+    import gc
+    from bionumpy.encodings.alphabet_encoding import AlphabetEncoding
+    for o in gc.get_objects():
+        if isinstance(o, AlphabetEncoding):
+            o._is_initialized = False
+    APPLIED.append("AlphabetEncoding lookup tables re-initialised under the symbolic backend")
+
+
 def apply():
     if APPLIED:
         return
     _concretize_shapes()
     _message_formatting()
     _npsarray()
+    _text_entry()
+    _reset_cached_tables()
